@@ -13,6 +13,8 @@ enabled in the model (trace inclusion), `bad@n:tok` otherwise.
       p<kind><id><r|e|n|g|t>[S] peer stanza (r result, e error; n normal, g get, t set are never
         looked up; S: explicit other stanza namespace)   H<k> handler got stanza k
       g serve loop enters the hand-off select   h serve loop starts waiting for the close
+      C the application closes the output stream (later transmissions fail before they write)
+      f<i> right after c<i> on a broken / closed output: the call failed at once
     C06 rcpt <ids> <trace>      ids `,`-joined, tokens: c o f x s as above, T<i> returned nil,
       R<i>c returned the context error, q<id> receipt for id looked up (and deleted),
       d the handler's channel send, U<id> Unhandled(id) called
@@ -92,6 +94,7 @@ def applyTok (cfg : Cfg) (s : St) (tok : String) : Option St :=
   | 'H' :: r => do
     let k ← numOf r
     if s.hlog.head? = some k then some s else none
+  | ['C'] => step cfg s .closeOut
   | ['g'] => match s.spc with
     | .offering .. => some s
     | _ => none
@@ -111,7 +114,7 @@ def summary (cfg : Cfg) (n : Nat) (s0 : St) : String :=
   let s := settle cfg s0
   let outs := (List.range n).map fun i => showOutcome (s.rpc i)
   let hl := s.hlog.reverse.map toString
-  let probe := if s.spc = .idle then "live" else "stall"
+  let probe := if s.spc = .idle then "live" else if s.spc = .dead then "dead" else "stall"
   s!"out={joinList outs "/"} hl={joinList hl} probe={probe}"
 
 def replayAll (cfg : Cfg) : List String → Nat → St → Except String St
@@ -188,7 +191,7 @@ def enabled (cfg : Cfg) (reqs : List (Kind × Nat × Ns)) (g : GState) : List St
   let s := g.st
   let perReq := (List.range n).flatMap fun i =>
     (if s.rpc i == .fresh && !busySending n s then [s!"c{i}"] else []) ++
-    (if s.rpc i == .sending then [s!"o{i}", s!"f{i}"] else []) ++
+    (if s.rpc i == .sending && !(s.broken || s.outClosed) then [s!"o{i}", s!"f{i}"] else []) ++
     (if !s.cancelled i && (s.rpc i == .sending || s.rpc i == .waiting) then [s!"x{i}"] else []) ++
     (if s.rpc i == .waiting && !g.insel.contains i then [s!"s{i}"] else []) ++
     (match s.rpc i with | .done (.reply _) false => [s!"k{i}"] | _ => [])
@@ -203,7 +206,8 @@ def enabled (cfg : Cfg) (reqs : List (Kind × Nat × Ns)) (g : GState) : List St
     else []
   let serve := (match s.spc with | .offering .. => if g.entered then [] else ["g"] | _ => []) ++
     (if g.handed then ["h"] else [])
-  perReq ++ peers ++ serve
+  let closeOut := if !s.outClosed && !busySending n s && s.hist.length ≥ 2 && s.hist.length % 5 == 0 then ["C"] else []
+  perReq ++ peers ++ serve ++ closeOut
 
 def applyAction (cfg : Cfg) (n : Nat) (g : GState) (tok : String) : Option GState := do
   let s' ← applyTok cfg g.st tok
@@ -219,6 +223,16 @@ def applyAction (cfg : Cfg) (n : Nat) (g : GState) (tok : String) : Option GStat
         match s'.hlog.head? with | some k => { g' with trace := s!"H{k}" :: g'.trace } | none => g'
       else g'
     | 'f' :: r => match numOf r with | some i => { g1 with insel := g1.insel.erase i } | none => g1
+    | 'c' :: r =>
+      -- on a broken or closed output the transmission fails at once: the call returns
+      match numOf r with
+      | some i =>
+        if s'.broken || s'.outClosed then
+          match steps cfg s' [.sendFail i, .dereg i] with
+          | some s'' => { g1 with st := s'', trace := s!"f{i}" :: g1.trace }
+          | none => g1
+        else g1
+      | none => g1
     | _ => g1
   pure (autoEvents cfg n g2 (2 * n + 2))
 
